@@ -56,7 +56,7 @@ def mutations(plan, rng):
                     out.append(("inherent_item_sets_differ", (bi, name), mut(drop_item=name)))
                 out.append(("inherent_item_sets_differ", bi, mut(add_item="const EXTRA: u8 = 1;")))
                 for k, name, d in plan.items:
-                    if k in ("const", "fn", "method", "ufn", "pfn", "ltfn", "elfn"):
+                    if k in ("const", "fn", "method", "ufn", "pfn", "ltfn", "elfn", "afn"):
                         out.append(("inherent_visibility_differs", (bi, name), mut(vis_flip=name)))
     return out
 
@@ -163,6 +163,9 @@ def run(tier, seed, replay=None):
             # a method whose late-bound lifetime is named in the trait / the first block and elided elsewhere (seeded change C14f:
             # an arity check on fn generics would reject it)
             p.items.append(("elfn", "lbl", False))
+        if p.mode == "trait" and rng.random() < 0.35:
+            # `-> impl Future` in the trait, `async fn` in some blocks (seeded change C14h: a qualifier comparison would reject it)
+            p.items.append(("afn", "fut", False))
         bases.append(p)
     cases = []   # (defect or None, site, plan)
     for b in bases:
